@@ -246,6 +246,67 @@ def template_phase(ck, v, known):
     return evals, outcomes
 
 
+def native_limit_phase(ck, v):
+    """cmdline / filename / env / env_all build their value themselves: argument vectors, paths and environments whose natural text is
+    limit-1 / limit / limit+1 / far above, with the boundary falling at an argument end, on a separator, or inside an argument."""
+    cases = []
+    for dsmax in (255, 2047):
+        for total in (dsmax - 4, dsmax - 1, dsmax, dsmax + 1, dsmax + 200):
+            shapes = {
+                'one': [b'a' * total],
+                'two_last_long': [b'b' * 10, b'c' * (total - 11)],
+                'boundary_at_arg_end': [b'd' * (dsmax - 4), b'eee'] + [b'f' * 5] * ((total - dsmax) // 6 + 1) if total > dsmax else [b'd' * (total - 4), b'eee'],
+                'boundary_on_separator': [b'g' * dsmax, b'hh', b'i'] if total > dsmax else [b'g' * (total - 2), b'h'],
+                'one_short_of_limit_then_empty': [b'j' * (dsmax - 1), b'', b'kk'] if total > dsmax else [b'j' * (total - 1), b''],
+                'many_small': [b'lm'] * ((total + 2) // 3),
+            }
+            for sk, av in shapes.items():
+                cases.append((dsmax, 'cmdline', sk + ':%d' % total, dict(argv=av), b' '.join(av)))
+            cases.append((dsmax, 'filename', 'len:%d' % total, dict(path=b'/' + b'p' * (total - 1)), b'/' + b'p' * (total - 1)))
+            cases.append((dsmax, 'env:V', 'len:%d' % total, dict(env=[b'V=' + b'v' * total]), b'v' * total))
+            for envs in ([b'A=' + b'x' * (total - 2)], [b'A=1', b'B=' + b'y' * (total - 6)], [b'K%02d=%s' % (i, b'z' * 10) for i in range((total + 14) // 15)]):
+                cases.append((dsmax, 'env_all', 'vars=%d:%d' % (len(envs), total), dict(env=envs), b','.join(envs)))
+    w = os.path.join(ck.workdir, 'native')
+    lines = ['sinks pipe', 'lean 1']
+    for dsmax, ds, label, st, natural in cases:
+        cfg = b'[snoopy]\ndatasource_message_max_length = %d\nlog_message_max_length = 100000\noutput = file:%s/log\nmessage_format = <%%{%s}>\n' % (dsmax, w.encode(), ds.encode())
+        lines.append('cfg ' + H.hx(cfg))
+        lines.append('env set ' + H.vec([H.hx(e) for e in st.get('env', [b'Z=1'])]))
+        lines.append('call execve %s %s [] -1 2' % (H.hx(st.get('path', b'/p')), H.vec([H.hx(a) for a in st.get('argv', [b'x'])])))
+    r = H.run_script(v['h_exec'], w, '\n'.join(lines), env_extra={'VERIF_HEXMAX': '40000'}, timeout=300)
+    calls = [l for l in r['lines'] if 'call' in l]
+    outcomes = set()
+    if not r['done']:
+        c = cases[len(calls)] if len(calls) < len(cases) else None
+        ck.violation('C05:native:abort:%s' % (c[1:3],), {'case': str(c[:3]), 'sanitizer': r['san'][:1], 'rc': r['rc']})
+    for (dsmax, ds, label, st, natural), j in zip(cases, calls):
+        data = H.sink_bytes(j['logdelta'])
+        bad = []
+        if not (data.startswith(b'<') and data.endswith(b'>\n')):
+            bad.append('framing')
+            val = data
+        else:
+            val = data[1:-2]
+        if len(val) > dsmax:
+            bad.append('contributed_%d>dsmax' % len(val))
+        # env_all keeps room for its own ",..." continuation mark (documented in the source): what it returns IS its output, so
+        # exactness is only demanded where that reserve is not needed; the bound and the prefix rule hold everywhere
+        reserve = 4 if ds == 'env_all' else 0
+        if len(natural) <= dsmax - reserve:
+            if val != natural:
+                bad.append('inexact_although_it_fits')
+        elif len(natural) > dsmax or val != natural:
+            core = val[:-3] if (ds == 'env_all' and val.endswith(b'...')) else val
+            if not natural.startswith(core):
+                bad.append('not_a_prefix_of_the_full_text')
+            elif len(core) < dsmax - 16:
+                bad.append('cut_much_shorter_than_the_limit(%d)' % len(core))
+        outcomes.add(('native', ds, label.split(':')[0], len(natural) - dsmax, tuple(bad)))
+        if bad:
+            ck.violation('C05:native:%s:%s:ds=%d:%s' % ('+'.join(re.sub(r'\(.*?\)|_\d+', '', b) for b in bad), ds, dsmax, label), {'datasource': ds, 'dsmax': dsmax, 'case': label, 'natural_len': len(natural), 'value_len': len(val), 'value_tail': val[-40:].decode('latin-1'), 'failed': bad})
+    return len(calls), outcomes
+
+
 def run(ck):
     v = H.build_exec_harness('c05-ts-asan')
     known = known_names(v['repo'])
@@ -342,6 +403,10 @@ def run(ck):
     t_evals, t_out = template_phase(ck, v, known)
     evals += t_evals
     outcomes |= t_out
+    # ---- phase 3: data sources with their own joining/truncation logic, natural output around each limit
+    n3, o3 = native_limit_phase(ck, v)
+    evals += n3
+    outcomes |= o3
     ck.assumptions += ['formats longer than %d bytes cannot be put in the configuration file (inih line limit) and are skipped: %d' % (VALUE_MAX, skipped),
                        'after an unknown tag only the prefix up to the error text is compared']
     ck.coverage(states=len(outcomes), transitions=evals, traces_validated_against_impl=evals, evaluations=evals, distinct_nontrivial=len(outcomes),
